@@ -248,6 +248,20 @@ impl Fields {
                         ctx.report("array exceeds max length");
                     }
                 })
+            } else if let Some((ident, lit)) = field
+                .attrs
+                .count
+                .as_deref()
+                .and_then(Count::field_minus_literal)
+            {
+                // the stored count is larger than the length of the array,
+                // and also needs to fit in the count field.
+                let typ = self.get_scalar_field_type(ident);
+                Some(quote! {
+                    if #maybe_check_is_some self.#name #maybe_unwrap.len() > (#typ::MAX as usize) - #lit {
+                        ctx.report("array exceeds max length");
+                    }
+                })
             } else {
                 None
             };
